@@ -155,7 +155,8 @@ func addresses(v reflect.Value, out map[uintptr]string, path string, depth int) 
 			}
 		}
 	case reflect.Slice:
-		if v.Len() > 0 {
+		// (a slice without capacity points to a placeholder that all such slices share)
+		if v.Cap() > 0 {
 			out[v.Pointer()] = path + "[]"
 		}
 		for i := 0; i < v.Len(); i++ {
@@ -173,6 +174,39 @@ func addresses(v reflect.Value, out map[uintptr]string, path string, depth int) 
 			addresses(v.MapIndex(k), out, fmt.Sprintf("%s{%v}", path, k), depth+1)
 		}
 	}
+}
+
+// respare gives every empty, non-nil slice reachable from v spare capacity, the way
+// make([]T, 0, n) or s[:0] do in caller code (same JSON, other memory layout).
+func respare(v reflect.Value, depth int) int {
+	n := 0
+	if depth > 8 {
+		return 0
+	}
+	switch v.Kind() {
+	case reflect.Ptr:
+		if !v.IsNil() {
+			n += respare(v.Elem(), depth+1)
+		}
+	case reflect.Struct:
+		if v.Type() == reflect.TypeOf(time.Time{}) || v.Type() == reflect.TypeOf(sod.Item{}) {
+			return 0
+		}
+		for i := 0; i < v.NumField(); i++ {
+			if v.Type().Field(i).IsExported() {
+				n += respare(v.Field(i), depth+1)
+			}
+		}
+	case reflect.Slice:
+		if !v.IsNil() && v.Len() == 0 && v.CanSet() {
+			v.Set(reflect.MakeSlice(v.Type(), 0, 4))
+			n++
+		}
+		for i := 0; i < v.Len(); i++ {
+			n += respare(v.Index(i), depth+1)
+		}
+	}
+	return n
 }
 
 func shared(a, b sod.Object) string {
@@ -287,7 +321,7 @@ var propC14 = &modelProp{
 	nt: func(e *Env) bool {
 		return e.flags["isolation-deep-shape"] > 0 && e.flags["isolation-mutated-caller-object"] > 0
 	},
-	rule: "documents with generated shapes (nil / empty / non-empty slices and maps, pointer chains *T and **T, slices of pointers incl. nil elements, maps of slices of pointers, interface{} holding nil/scalars/maps/slices, arrays of scalars, nested structs by value and pointer), cache and async on and off. After every accepted InsertOrUpdate the caller's object is mutated through reflection at every reachable location; after every op each stored object is read twice (address sets of all reachable pointers/slices/maps must be disjoint), the first copy is mutated everywhere, a third read must equal the canonical JSON recorded at store time and share nothing; the same for objects returned by All and Search.Collect; all read paths are compared with the model after every op; with the cache on a second handle reads every object from its file and the cached read must equal it. TestC14Deep repeats the store/mutate/read protocol on a second type whose containers are nested directly inside containers ([][]int, []map, map of maps, map of pointers incl. nil entries, *[]T, []*[]T, [][][]string, zero values held by interface{} slots) with cache and async on and off, and finally reads every object through a cold second handle (what reached the file must be what was stored, not what the caller turned it into). Non-trivial: a stored shape with a non-nil pointer or non-empty container at depth >= 2 and >= 1 mutated location in a caller object. Distinct by program hash.",
+	rule: "documents with generated shapes (nil / empty / non-empty slices and maps, pointer chains *T and **T, slices of pointers incl. nil elements, maps of slices of pointers, interface{} holding nil/scalars/maps/slices, empty slices with spare capacity, arrays of scalars, nested structs by value and pointer), cache and async on and off. After every accepted InsertOrUpdate the caller's object is mutated through reflection at every reachable location; after every op each stored object is read twice (address sets of all reachable pointers/slices/maps must be disjoint), the first copy is mutated everywhere, a third read must equal the canonical JSON recorded at store time and share nothing; the same for objects returned by All and Search.Collect; all read paths are compared with the model after every op; with the cache on a second handle reads every object from its file and the cached read must equal it. TestC14Deep repeats the store/mutate/read protocol on a second type whose containers are nested directly inside containers ([][]int, []map, map of maps, map of pointers incl. nil entries, *[]T, []*[]T, [][][]string, zero values held by interface{} slots) with cache and async on and off, and finally reads every object through a cold second handle (what reached the file must be what was stored, not what the caller turned it into). Non-trivial: a stored shape with a non-nil pointer or non-empty container at depth >= 2 and >= 1 mutated location in a caller object. Distinct by program hash.",
 	after: func(e *Env) {
 		// cached read == round trip through the file (second handle, cold cache)
 		if e.cfg.Async != nil {
@@ -322,6 +356,11 @@ var propC14 = &modelProp{
 
 func init() {
 	propC14.setup = func(e *Env) {
+		e.prepArg = func(arg *Doc) {
+			if respare(reflect.ValueOf(arg), 0) > 0 {
+				e.flag("empty-slice-with-spare-capacity-stored")
+			}
+		}
 		// mutate the caller's object right after it was stored
 		e.onStored = func(arg *Doc) {
 			if n := scramble(reflect.ValueOf(arg), 0); n > 0 {
@@ -353,7 +392,7 @@ func genCfgTwin(g *G, c Config) Config {
 	// flip the index of some non-unique paths (constrained ones and the usual query paths)
 	cands := []string{"S", "I64", "In.N", "Pt.S", "Emb.ES", "U8", "F64", "T", "Pt.T"}
 	for k, v := range c.Cons {
-		if !v.Unique {
+		if !v.Unique && k != "Any" {
 			cands = append(cands, k)
 		}
 	}
